@@ -138,7 +138,7 @@ def correspondence(ck, binpath, n, loops):
     if rc != 0:
         ck.tie_broken("harness c15 corr failed", err[-2000:])
         return
-    cases = [json.loads(l) for l in out.splitlines() if l.strip()]
+    cases = [json.loads(l) for l in jlines(out) if l.strip()]
     terms, kept = [], []
     for c in cases:
         t = case_to_coq(c)
@@ -204,7 +204,7 @@ def search(ck, binpath, n, loops, sigs_mine):
     if rc != 0:
         ck.tie_broken("harness c15 search failed", err[-2000:])
         return
-    for l in out.splitlines():
+    for l in jlines(out):
         if not l.strip():
             continue
         v = json.loads(l)
@@ -221,7 +221,7 @@ def replay(ck, binpath, path, sigs_mine):
     for v in data.get("violations", []):
         p = v["case"].get("p")
         rc, out, err = ck.run_bin(binpath, ["one", "--case-json", json.dumps({"p": p})])
-        lines = out.splitlines()
+        lines = jlines(out)
         text = json.loads(lines[0])["text"] if lines else ""
         for l in lines[1:]:
             vv = json.loads(l)
